@@ -16,6 +16,7 @@ import (
 
 	"github.com/bytedance/sonic/internal/jit"
 	"github.com/bytedance/sonic/internal/native"
+	"github.com/bytedance/sonic/internal/rt"
 )
 
 type verifDump struct {
@@ -79,6 +80,10 @@ func verifResolve(o *jit.VerifOperand) {
 		o.Sym = "go." + f.Name()
 		return
 	}
+	if a == uintptr(unsafe.Pointer(&rt.RuntimeWriteBarrier)) {
+		o.Sym = "var.runtime.writeBarrier" // changes while the collector runs: never part of the image
+		return
+	}
 	o.Sym = "addr"
 	if b, ok := verifPeek(a, 16); ok {
 		verifMem[fmt.Sprint(uint64(a))] = hex.EncodeToString(b)
@@ -138,6 +143,12 @@ func TestVerifDump(t *testing.T) {
 	vd := new(_ValueDecoder)
 	d := verifDump{Name: "dec_generic", Kind: "generic", Consts: map[string]int64{}}
 	d.Ins = vd.BaseAssembler.VerifDump(vd.compile)
+	// layout of the real state stack the generated code indexes (ST = &_Stack.mm)
+	var stk _Stack
+	d.Consts["vt_len"] = int64(len(stk.mm.Vt))
+	d.Consts["vt_off"] = int64(unsafe.Offsetof(stk.mm.Vt))
+	d.Consts["vp_len"] = int64(len(stk.vp))
+	d.Consts["vp_off"] = int64(unsafe.Offsetof(stk.vp) - unsafe.Offsetof(stk.mm))
 	verifWrite(d)
 	fmt.Println("dumped", len(types)+1)
 }
